@@ -22,6 +22,7 @@ QUICK = [
     "multi-stakker,logger,inline-deferrer,inter-thread",   # inline deferrer (unsafe), QCell, logger
     "no-unsafe,inline-deferrer,inter-thread",         # inline safe deferrer
     "multi-thread,no-unsafe-queue",                   # thread-local unsafe deferrer + boxed queue
+    "multi-stakker,logger",                           # several Stakkers per thread with the Deferrer that cfg selects for it
 ]
 
 
@@ -210,5 +211,5 @@ def run(tier, seed, replay=None):
         "explanation": "each build's trace was validated against SeqAbs by TLC, compared event-for-event with the reference build and with the design specs' predictions",
     }
     return {"level": "model_checking", "coverage": coverage, "violations": viols, "assumptions": seqcheck.ASSUME + [
-        "quick tier: 6 builds that between them compile every cfg-selected alternative module; thorough tier: all 18 supported combinations"],
+        "quick tier: 7 builds that between them compile every cfg-selected alternative module; thorough tier: all 18 supported combinations"],
         "summary": "%d builds x %d cases, %d events, %d drift" % (len(combos), len(cases), nev, drift_total)}
